@@ -249,6 +249,27 @@ func (f *frame) call0(res ssa.Value, c *ssa.CallCommon, st *State, cur string) (
 		f.safetyObl("nil", exprText(f, c.Value), cur, fmt.Sprintf("(not (= (i_tag %s) 0))", iv), c.Pos())
 		cur = and(cur, fmt.Sprintf("(not (= (i_tag %s) 0))", iv))
 	}
+	// a method of a type declared outside the repository, called with a pointer receiver that may be nil: library
+	// methods dereference their receiver (generated protobuf getters and a few others are nil-safe)
+	if !c.IsInvoke() && t.fc != nil && (t.fc.Sweep || hasProp(t.fc.Props, "C20")) {
+		// (only in the zero-annotation sweep: contracts of other functions state their own receiver assumptions)
+		if callee := c.StaticCallee(); callee != nil && callee.Signature.Recv() != nil && len(c.Args) > 0 && !t.P.InRepo(callee) && !nilSafeLibMethod(callee) {
+			if _, isP := callee.Signature.Recv().Type().Underlying().(*types.Pointer); isP {
+				recvV := c.Args[0]
+				// the address of a field (an embedded struct, a mutex) is nil only if the enclosing object is
+				for {
+					fa, ok := recvV.(*ssa.FieldAddr)
+					if !ok {
+						break
+					}
+					recvV = fa.X
+				}
+				rv := f.termOf(recvV)
+				f.safetyObl("nil", exprText(f, c.Args[0])+"."+callee.Name(), cur, fmt.Sprintf("(not (= %s 0))", rv), c.Pos())
+				cur = and(cur, fmt.Sprintf("(not (= %s 0))", rv))
+			}
+		}
+	}
 	setRes := func(v *Val) {
 		if res != nil {
 			f.vals[res] = v
@@ -975,4 +996,18 @@ func (f *frame) appendOp(res ssa.Value, c *ssa.CallCommon, st *State, cur string
 	cur = and(cur, fmt.Sprintf("(=> %s (forall ((?j Int)) (! (=> (or (< ?j (+ (s_off %s) (s_len %s))) (>= ?j (+ (s_off %s) %s))) (= (select %s ?j) (select (select %s %s) ?j))) :pattern ((select %s ?j)))))", inPlace, s, s, s, newLen, inner, old, rb, inner))
 	f.vals[res] = &Val{term: r}
 	return cur, nil
+}
+
+// nilSafeLibMethod: library methods that may be called on a nil pointer receiver.
+func nilSafeLibMethod(fn *ssa.Function) bool {
+	name := fn.Name()
+	pkg := ""
+	if fn.Pkg != nil {
+		pkg = fn.Pkg.Pkg.Path()
+	}
+	if strings.Contains(pkg, "sdc-protos") || strings.Contains(pkg, "openconfig/gnmi") || strings.HasPrefix(pkg, "google.golang.org/protobuf") {
+		// generated code: getters, String, Reset, ProtoReflect handle nil receivers
+		return strings.HasPrefix(name, "Get") || name == "String" || name == "ProtoReflect" || name == "Reset"
+	}
+	return false
 }
